@@ -22,8 +22,10 @@ import (
 	"verifharness/internal/trace"
 )
 
-func main() {
-	mode := flag.String("mode", "record", "record | universe | replay")
+func main() { guard("main", realMain) }
+
+func realMain() {
+	mode := flag.String("mode", "record", "record | universe | replay | realloop")
 	out := flag.String("out", ".", "output directory")
 	runs := flag.Int("runs", 8, "number of runs")
 	seed := flag.Int64("seed", 1, "seed")
@@ -50,12 +52,23 @@ func main() {
 				}
 			}
 			evs, st := runRecord(list[i%len(list)], *seed*1000003+int64(i), m)
-			all = append(all, evs...)
 			stats = append(stats, st)
+			if st.Discarded != "" {
+				continue // e.g. too slow for the wall-clock facts it logged: no evidence, no verdict
+			}
+			all = append(all, evs...)
 		}
 		must(trace.WriteNDJSON(filepath.Join(*out, "trace.ndjson"), all))
 		writeJSON(filepath.Join(*out, "runs.json"), stats)
 		b, _ := json.Marshal(map[string]any{"runs": len(stats), "events": len(all)})
+		fmt.Println(string(b))
+	case "realloop":
+		var res []realLoopResult
+		for i := 0; i < *runs; i++ {
+			res = append(res, runRealLoop(*seed*1000003+int64(i)))
+		}
+		writeJSON(filepath.Join(*out, "realloop.json"), res)
+		b, _ := json.Marshal(map[string]any{"runs": len(res)})
 		fmt.Println(string(b))
 	case "universe":
 		printUniverse()
